@@ -143,7 +143,7 @@ class Repo:
                 self._baseline = load_baseline()
             inl = self._inliners.get(m.name)
             if inl is None:
-                inl = HelperInliner(m.tree, m.name, self._baseline)
+                inl = HelperInliner(m.tree, m.name, self._baseline, {k: v.tree for k, v in self.mods.items() if k != m.name})
                 self._inliners[m.name] = inl
             try:
                 self._norm_cache[key] = normalize(node, cls, qualname, inl)
